@@ -153,6 +153,15 @@ example : (LOHG.fromStrict exF >>= LOHG.toStrict revBackend) =
       ⟨⟨⟨[0, 2], 3⟩, ⟨[2, 2], 4⟩⟩, ⟨⟨[1, 1], 3⟩, ⟨[2, 1], 4⟩⟩, ["d", "c", "b", "a"], ["k", "m"]⟩⟩ := by
   rfl
 
+example : ∃ r, (LOHG.fromStrict exF >>= LOHG.toStrict vecBackend) = .ok r ∧ r.wf = true ∧
+    exF.toPlain ≅ r.toPlain ∧ r.h.x = exF.h.x :=
+  to_from_strict_lawful vecBackend vecBackend_lawful exF (by decide)
+
+example : ∃ d', (LOHG.toStrict vecBackend exD >>= LOHG.fromStrict) = .ok d' ∧ d'.wf = true ∧
+    d'.hypergraph.quotient = ([], []) ∧ plain exD ≅ plain d' ∧
+    d'.hypergraph.edges = exD.hypergraph.edges :=
+  from_to_strict_lawful vecBackend vecBackend_lawful exD (by decide) rfl
+
 /-- the hypothesis "no pending unification" cannot be dropped: the pairs are consumed -/
 example :
     let d : LOHG String String := ⟨[0], [1], ⟨["a", "a"], [], [], ([0], [1])⟩⟩
@@ -312,7 +321,7 @@ tensor, spiders and symmetries as an EQUALITY of data. -/
 
 theorem strict_identity [DecidableEq O] (B : Backend) (hB : IdCC B) (a : List O) :
     LOHG.toStrict B (LOHG.identity a : LOHG O A) = OHG.identity a := by
-  rw [toStrict_nopending B hB _ (by simp [LOHG.wf, LHG.wf, LOHG.identity, LHG.discrete, LHG.empty]; intro x hx; exact hx)
+  rw [toStrict_nopending B hB _ (by simp [LOHG.wf, LHG.wf, LOHG.identity, LHG.discrete, LHG.empty]; intro x hx; exact decide_eq_true hx)
     rfl]
   simp [OHG.identity, FinFun.identity_eq, pack, LOHG.identity, LHG.discrete, LHG.empty, HG.discrete,
     IC.ofSegs, IC.initial, FinFun.initial]
@@ -393,6 +402,14 @@ theorem strict_twist [DecidableEq O] (B : Backend) (hB : IdCC B) (a b : List O) 
 example : (LOHG.twist ["a", "b"] ["c"] >>= LOHG.toStrict vecBackend) =
     (OHG.twist ["a", "b"] ["c"] : Res (OHG String String)) := by rfl
 
+/-- the hypotheses of `strict_dagger` / `strict_tensor` are met by `exD`, and the tensor is
+    computed on the nose -/
+example : exD.wf = true ∧ exD.hypergraph.quotient = ([], []) ∧
+    LOHG.toStrict vecBackend (LOHG.tensor exD exD) =
+      (do let a ← LOHG.toStrict vecBackend exD; let b ← LOHG.toStrict vecBackend exD
+          OHG.tensor a b) :=
+  ⟨by decide, rfl, strict_tensor vecBackend vecBackend_idCC exD exD (by decide) (by decide) rfl rfl⟩
+
 /-! ### strictification commutes with the operations: the general clauses (NOT proved here)
 
 With pending unifications strictification is the quotient by the equivalence they generate
@@ -401,7 +418,8 @@ recorded below; proving them needs the quotient characterisation of `LOHG.quotie
 `OH.C09`) together with a "quotient in stages" lemma for `IsQuot`.  The instances proved in
 this file are: operands without pending unifications and an `IdCC` backend, where they hold as
 equalities (`strict_identity`, `strict_dagger`, `strict_tensor`, `strict_spider`,
-`strict_twist`), and the round trips (`to_from_strict`, `from_to_strict`, and their `_lawful`
+`strict_twist`); identity / symmetry / spiders for every lawful backend up to `≅`
+(`strict_structure_lawful`); and the round trips (`to_from_strict`, `from_to_strict`, and their `_lawful`
 versions up to `≅`). -/
 
 /-- strict(f ; g) ≅ strict(f) ; strict(g) whenever the types match -/
@@ -423,23 +441,85 @@ def strict_tensor_statement : Prop :=
 def strict_dagger_statement : Prop :=
   ∀ {O A : Type} [DecidableEq O] (B : Backend), B.Lawful → ∀ (f : LOHG O A) (sf : OHG O A),
     f.wf = true → LOHG.toStrict B f = .ok sf →
-    ∃ r, LOHG.toStrict B f.dagger = .ok r ∧ r.toPlain ≅ sf.dagger.toPlain
+    ∃ r, LOHG.toStrict B f.dagger = .ok r ∧ sf.dagger.toPlain ≅ r.toPlain
 
-/-- strict(identity), strict(symmetry), strict(spider) ≅ the strict ones, for every lawful
-    backend -/
-def strict_structure_statement : Prop :=
-  ∀ {O A : Type} [DecidableEq O] (B : Backend), B.Lawful →
+/-- strict(identity), strict(symmetry), strict(spider) ≅ the strict ones, for EVERY lawful
+    backend (these lax diagrams carry no pending unification, so `toStrict_lawful_spec` applies) -/
+theorem strict_structure_lawful [DecidableEq O] (B : Backend) (hB : B.Lawful) :
     (∀ (a : List O) (i : OHG O A), OHG.identity a = .ok i →
-      ∃ r, LOHG.toStrict B (LOHG.identity a : LOHG O A) = .ok r ∧ r.toPlain ≅ i.toPlain) ∧
+      ∃ r, LOHG.toStrict B (LOHG.identity a : LOHG O A) = .ok r ∧ r.wf = true ∧
+        i.toPlain ≅ r.toPlain) ∧
     (∀ (a b : List O) (x : OHG O A), OHG.twist a b = .ok x →
-      ∃ r, (LOHG.twist a b >>= LOHG.toStrict B) = .ok r ∧ r.toPlain ≅ x.toPlain) ∧
+      ∃ r, (LOHG.twist a b >>= LOHG.toStrict B) = .ok r ∧ r.wf = true ∧ x.toPlain ≅ r.toPlain) ∧
     (∀ (s t : FinFun) (w : List O) (x : OHG O A), s.WF → t.WF → OHG.spider s t w = .ok x →
-      ∃ r, (LOHG.spider s t w >>= LOHG.toStrict B) = .ok r ∧ r.toPlain ≅ x.toPlain)
+      ∃ r, (LOHG.spider s t w >>= LOHG.toStrict B) = .ok r ∧ r.wf = true ∧
+        x.toPlain ≅ r.toPlain) := by
+  have hdisc : ∀ w : List O, (HG.discrete w : HG O A).wf = true := fun w => by
+    simp [HG.wf, HG.discrete, IC.wf, IC.initial, FinFun.initial, IC.valid, Prim.sum, FinFun.wf,
+      IC.len, FinFun.source]
+  -- every spider-like strict diagram `x` is handled through `unpack x`
+  have key : ∀ x : OHG O A, x.wf = true →
+      ∃ r, LOHG.toStrict B (unpack x) = .ok r ∧ r.wf = true ∧ x.toPlain ≅ r.toPlain := by
+    intro x hx
+    obtain ⟨r, hr, hrw, hiso, _⟩ := toStrict_lawful_spec B hB (unpack x) (unpack_wf x hx) rfl
+    exact ⟨r, hr, hrw, by rw [← unpack_plain x hx]; exact hiso⟩
+  refine ⟨?_, ?_, ?_⟩
+  · intro a i hi
+    have hi' : i = ⟨⟨List.range a.length, a.length⟩, ⟨List.range a.length, a.length⟩,
+        HG.discrete a⟩ := by
+      simp [OHG.identity, FinFun.identity_eq] at hi
+      exact hi.symm
+    subst hi'
+    have hw : (⟨⟨List.range a.length, a.length⟩, ⟨List.range a.length, a.length⟩,
+        HG.discrete a⟩ : OHG O A).wf = true := by
+      rw [ohg_wf_iff]
+      exact ⟨hdisc a, fun x hx => by simpa using hx, fun x hx => by simpa using hx, rfl, rfl⟩
+    exact key _ hw
+  · intro a b x hx
+    have hx' : x = ⟨⟨List.range' b.length a.length ++ List.range b.length, a.length + b.length⟩,
+        ⟨List.range (a.length + b.length), a.length + b.length⟩, HG.discrete (b ++ a)⟩ := by
+      simp [OHG.twist, FinFun.identity_eq, FinFun.twist_eq] at hx
+      exact hx.symm
+    have hw : x.wf = true := by
+      subst hx'
+      rw [ohg_wf_iff]
+      refine ⟨hdisc _, ?_, ?_, by simp [HG.discrete]; omega, by simp [HG.discrete]; omega⟩
+      · intro y hy
+        simp only [List.mem_append, List.mem_range'_1, List.mem_range] at hy
+        show y < a.length + b.length
+        omega
+      · intro y hy
+        simpa using hy
+    obtain ⟨hfs, _⟩ := fromStrict_spec x hw
+    unfold LOHG.twist
+    rw [hx]
+    simp only [Res.ok_bind, hfs]
+    exact key x hw
+  · intro s t w x hs ht hx
+    unfold OHG.spider at hx
+    split at hx
+    · cases hx
+    · rename_i hc
+      cases hx
+      have hc' : s.target = w.length ∧ t.target = w.length := by omega
+      have hw : (⟨s, t, HG.discrete w⟩ : OHG O A).wf = true := by
+        rw [ohg_wf_iff]
+        exact ⟨hdisc w, hs, ht, hc'.1, hc'.2⟩
+      have e1 : (LOHG.spider s t w : Res (LOHG O A)) = .ok (unpack ⟨s, t, HG.discrete w⟩) := by
+        unfold LOHG.spider
+        rw [if_neg (by omega)]
+        rfl
+      rw [e1]
+      exact key _ hw
+
+example : ∃ r, (LOHG.twist ["a", "b"] ["c"] >>= LOHG.toStrict vecBackend) = .ok r ∧ r.wf = true ∧
+    (⟨["c", "a", "b"], [], [1, 2, 0], [0, 1, 2]⟩ : PDiag String String) ≅ r.toPlain :=
+  (strict_structure_lawful vecBackend vecBackend_lawful).2.1 ["a", "b"] ["c"] _ rfl
 
 /-- strict(singleton) ≅ singleton -/
 def strict_singleton_statement : Prop :=
   ∀ {O A : Type} [DecidableEq O] (B : Backend), B.Lawful → ∀ (x : A) (a b : List O) (sx : OHG O A),
     OHG.singleton x a b = .ok sx →
-    ∃ r, LOHG.toStrict B (LOHG.singleton x a b) = .ok r ∧ r.toPlain ≅ sx.toPlain
+    ∃ r, LOHG.toStrict B (LOHG.singleton x a b) = .ok r ∧ sx.toPlain ≅ r.toPlain
 
 end OH.C10
